@@ -27,6 +27,7 @@ RESERVED_KEYWORDS = ["abstract", "become", "box", "do", "final", "macro", "overr
                      "try", "gen"]
 WEAK_KEYWORDS = ["macro_rules", "union", "safe", "raw"]
 KEYWORDS = STRICT_KEYWORDS + RESERVED_KEYWORDS + WEAK_KEYWORDS
+PRELUDE_WORDS = ["default", "string", "option", "vec", "rc", "result", "box", "some", "none", "ok", "err", "clone", "debug"]
 NOT_RAW = {"self", "Self", "super", "crate"}              # cannot be written as r#ident
 
 PLAIN_WORDS = ["order", "item", "user", "account", "price", "total", "code", "status", "detail", "list", "info", "data", "value",
@@ -285,7 +286,8 @@ class Names:
         r = self.r
         for _ in range(200):
             if allow_keyword and r.random() < self.keyword_rate:
-                kw = r.choice([k for k in KEYWORDS if k not in ("Self", "macro_rules")])
+                # Rust keywords, and words that are prelude / generated-code type names once PascalCased
+                kw = r.choice([k for k in KEYWORDS if k not in ("Self", "macro_rules")] + PRELUDE_WORDS)
                 words = (kw,) if r.random() < 0.6 else (kw, r.choice(self.pool))
                 # every style: `Move`, `MOVE` become the keyword `move` once snake-cased (as a type name `Move` is no keyword)
                 st = style or r.choice(self.styles)
